@@ -5,6 +5,12 @@ use std::io::{BufWriter, Write};
 use std::sync::Mutex;
 
 static TABLE: Mutex<String> = Mutex::new(String::new());
+static NOTES: Mutex<Vec<String>> = Mutex::new(Vec::new());
+
+/// A remark for the evidence (printed with the statistics of the table).
+pub fn note(s: &str) {
+    NOTES.lock().unwrap().push(s.replace('"', "'").replace('\\', "/"));
+}
 
 /// Names the table being written: selects the rule that makes a row non-trivial.
 pub fn set_table(name: &str) {
@@ -115,7 +121,8 @@ impl ChunkWriter {
         }
         // measured, for the evidence: distinct rows that are non-trivial by the rule above
         let cl: Vec<String> = self.classes.iter().map(|(k, v)| format!("\"{}\":{}", k, v)).collect();
-        println!("{{\"distinct_nontrivial\":{},\"nontrivial_by_class\":{{{}}}}}", self.distinct_nontrivial, cl.join(","));
+        let notes: Vec<String> = NOTES.lock().unwrap().iter().map(|n| format!("\"{}\"", n)).collect();
+        println!("{{\"distinct_nontrivial\":{},\"nontrivial_by_class\":{{{}}},\"notes\":[{}]}}", self.distinct_nontrivial, cl.join(","), notes.join(","));
         (self.k, self.total)
     }
 }
